@@ -89,14 +89,14 @@ func init() {
 		},
 		"Note": func(fr *frame, a []value) value {
 			i := fr.i
-			if len(i.notes) < 64 {
+			if len(i.notes) < 1000 {
 				i.notes = append(i.notes, noteRec{format: "%s", args: []value{iface{t: types.Typ[types.String], v: a[0]}}})
 			}
 			return nil
 		},
 		"Notef": func(fr *frame, a []value) value {
 			i := fr.i
-			if len(i.notes) < 64 {
+			if len(i.notes) < 1000 {
 				args := a[1].([]value)
 				cp := make([]value, len(args))
 				for k, x := range args {
